@@ -2,6 +2,7 @@
 use crate::rt::{Args, Report};
 
 pub mod c01;
+pub mod c02;
 pub mod c03;
 pub mod c04;
 pub mod c05;
@@ -10,6 +11,7 @@ pub mod c13;
 pub fn dispatch(a: &Args) -> Option<Report> {
     match a.prop.as_str() {
         "C01" => c01::run(a),
+        "C02" => c02::run(a),
         "C03" => c03::run(a),
         "C04" => c04::run(a),
         "C05" => c05::run(a),
